@@ -121,8 +121,11 @@ class GroupSpec(SeqSpec):
             ops.append(self._stop(True, True))
         elif how == "saw-race":
             members = [self._stop(True)]
-            for _ in range(rng.choice([1, 2])):
-                g = self._reg(rng.choice(["do", "trigger", "periodic", "pot"]), rng.choice(["gate", "ctx"]), True)
+            kinds = [rng.choice(["do", "trigger", "periodic", "pot"])]
+            if rng.random() < 0.5:
+                kinds.append(rng.choice(["do", "trigger"]))
+            for kind in kinds:
+                g = self._reg(kind, rng.choice(["gate", "ctx"]), True)
                 late.append(g[1])
                 members.append(g)
             rng.shuffle(members)
@@ -171,8 +174,10 @@ class GroupSpec(SeqSpec):
             members.append(self._stop(False))
         else:
             members.append(["cancel"])
+        timer_used = False
         for _ in range(rng.choice([1, 2, 2])):
-            kind = rng.choice(["do", "do", "trigger", "periodic", "pot"])
+            kind = rng.choice(["do", "do", "trigger"] if timer_used else ["do", "do", "trigger", "periodic", "pot"])
+            timer_used = timer_used or kind in ("periodic", "pot")
             fmode = rng.choice(["gate", "ctx"]) if kind == "do" else "gate"
             g = self._reg(kind, fmode, rng.random() < 0.7)
             pre.append(g[1])
@@ -192,12 +197,16 @@ class GroupSpec(SeqSpec):
     def gen_mix(self, rng):
         ops = []
         regs = []
+        timer_used = False
         for _ in range(rng.choice([1, 2, 3])):
-            kind = rng.choice(["do", "trigger", "trigger", "pot", "periodic"])
+            kind = rng.choice(["do", "trigger", "trigger"] if timer_used else ["do", "trigger", "trigger", "pot", "periodic"])
             fmode = rng.choice(["gate", "ctx"]) if kind == "do" else "gate"
             g = self._reg(kind, fmode, False, rng.random() < 0.3)
             regs.append(g)
             ops.append(g)
+            if kind in ("periodic", "pot"):
+                timer_used = True
+                ops.append(["await", g[1], 1])     # the loop now sits inside its gated f
         trigable = [g[1] for g in regs if g[2] in ("trigger", "pot")]
         for _ in range(rng.choice([2, 4, 6])):
             c = rng.random()
@@ -211,7 +220,7 @@ class GroupSpec(SeqSpec):
         return ops
 
     def gen(self, rng, tier, scale):
-        n = int((260 if tier == "quick" else 4000) * scale)
+        n = int((600 if tier == "quick" else 8000) * scale)
         cases = []
         for i in range(n):
             self.nr = self.nt = self.nk = 0
